@@ -16,7 +16,7 @@ import dlib  # noqa: E402
 
 logging.disable(logging.CRITICAL)
 
-from traits.api import Event, HasTraits, TraitError, push_exception_handler, pop_exception_handler  # noqa: E402
+from traits.api import Event, HasTraits, Property, TraitError, push_exception_handler, pop_exception_handler  # noqa: E402
 from traits.trait_type import TraitType  # noqa: E402
 from traits.constants import ComparisonMode  # noqa: E402
 
@@ -85,10 +85,46 @@ def make_type(t, env):
     return tt
 
 
+def make_property(i, t, env):
+    """fget(obj) -> getattr_property1, fset(obj, value) -> setattr_property2, fvalidate(obj, name, value) ->
+    setattr_validate_property + setattr_validate3"""
+    table = {}
+    for a, r in t["vld"]:
+        table[a] = r
+    key = "_pv%d" % i
+
+    def fget(obj):
+        if t["dflt"] == ["call", None]:
+            raise Boom("getter")
+        return obj.__dict__.get(key, None)
+
+    def fset(obj, value):
+        if t["post"] == "raise":
+            raise Boom("setter")
+        if t["post"] == "ok":
+            obj.__dict__[key] = value
+
+    def fval(obj, name, value):
+        r = table.get(env.atom(value), "same")
+        if r == "same":
+            return value
+        if r == "reject":
+            raise TraitError("rejected")
+        if r == "raise":
+            raise Boom("validator")
+        return env.val(r[1])
+    if t["hv"]:
+        return Property(fget=fget, fset=fset, fvalidate=fval)
+    return Property(fget=fget, fset=fset)
+
+
 def make_class(case, env):
     ns = {}
     for i, t in enumerate(case["traits"]):
         name = "t%d" % i
+        if t["kind"] == "prop":
+            ns[name] = make_property(i, t, env)
+            continue
         tt = make_type(t, env)
         ns[name] = Event(tt) if (t["kind"] == "event" and t["hv"]) else Event() if t["kind"] == "event" else tt
         if t["dflt"][0] == "call" and t["kind"] != "event":
@@ -162,7 +198,7 @@ def run_case(ci, case, progress):
             env.calls = 0
             kind, n = op[0], "t%d" % op[1]
             v = val(op[2]) if kind == "set" else None
-            gc.collect()
+            gc.collect(1)      # young generations only: the garbage of the previous step is young
             before = [getrc(x) for x in measured]
             res = "Ok"
             try:
@@ -175,13 +211,14 @@ def run_case(ci, case, progress):
             except BaseException as e:
                 res = classify(e)
                 e = None
-            gc.collect()
+            gc.collect(1)
             after = [getrc(x) for x in measured]    # `v` is still held here, as it was for `before`
             v = None
             d = o.__dict__
-            out.append(dict(out=res, dict=[[i, atom(d[nm])] for i, nm in enumerate(names) if nm in d],
+            out.append(dict(out=res, dict=[[i, atom(d[nm])] for i, nm in enumerate(names) if nm in d] +
+                            [[1000 + i, atom(d["_pv%d" % i])] for i in range(len(names)) if "_pv%d" % i in d],
                             calls=env.calls, delta=[y - x for x, y in zip(before, after)],
-                            extra=sorted(k for k in d if k not in names)))
+                            extra=sorted(k for k in d if k not in names and not k.startswith("_pv"))))
         return out
     finally:
         pop_exception_handler()
@@ -197,6 +234,9 @@ def main():
     res = []
     for ci, case in enumerate(payload["cases"]):
         res.append(run_case(ci, case, prog))
+        if ci % 200 == 199:
+            gc.collect()
+            gc.freeze()    # keep full collections cheap: the classes of finished cases stay out of the way
     if prog is not None:
         prog.seek(0)
         prog.write("done           \n")
